@@ -16,4 +16,8 @@ def obligations(ctx, cfg):
            StepExpire(ctx, no, 2, 0, 'conserve', 'C01.a-expire')]
     from props.actor_steps import ActorLoop
     obs.append(ActorLoop(ctx, 2, 1, 2, True, 'conserve', 'C01.f-actor-loop'))
+    # the topic side of the fan-out: every attached subscription is posted the whole accepted batch
+    from props.C08 import PublishStep
+    ns, kb = (3, 2) if q else (4, 3)
+    obs.append(PublishStep(ctx, ns, kb, id_='C01.c-publish-fanout'))
     return obs
